@@ -657,5 +657,13 @@ def rule_counts_shared(ck):
     c03.rule_pure_gridding(ck)
 
 
+def rule_precision(ck):
+    """C01-D1.double: coordinates, bounds and edges stay in the precision they were supplied in - no conversion to a narrower numeric type
+    (a bound rounded to float32 moves by up to 4e-6 degrees, so points next to it change owner)"""
+    from .common import rule_double_precision
+    ck.clause('D1')
+    rule_double_precision(ck, 'C01-D1.double', modules=('csep.core.regions', 'csep.utils.calc'), what='cell origins, edges and coordinates')
+
+
 RULES = [rule_partition, rule_who, rule_raw_coordinates, rule_sentinel, rule_mask_polarity, rule_midpoints, rule_lattice_step, rule_single_edge,
-         rule_kernel_shared, rule_counts_shared]
+         rule_kernel_shared, rule_counts_shared, rule_precision]
